@@ -13,7 +13,8 @@ LEVEL = 'exploration'
 SHARDS = {'quick': 4, 'thorough': 16}
 RULE = ('Byte contents (empty, arbitrary binary incl. NUL / 0x80-0xFF / newlines / CRLF, the placeholder text itself, '
         'sizes limit-1, limit, limit+1 for explicit limits of n bytes expressed as n/2^20 MB, the environment-variable '
-        'limit 0 with 0/1-byte files, and the 1 MB environment limit with files of 2^20-1, 2^20, 2^20+1 bytes) x path '
+        'limit 0 with 0/1-byte files, the 1 MB environment limit with files of 2^20-1, 2^20, 2^20+1 bytes, and files of '
+        'several MB under the default 500 MB limit and under 2 / 4 MB environment limits) x path '
         'passed positionally or by keyword x instance and static interceptions x input and output file data handlers x '
         'cassette type (in-memory, file, S3, async), always through a full program: record -> cassette -> fetch -> '
         'replay. Oracle: the file found at the path named by the REPLAYED call holds the recorded bytes (<= limit) or '
@@ -42,6 +43,10 @@ def check_file_case(ctx, case):
         os.environ[ENV] = str(case['env_limit'])
         limit_arg = None
         limit_bytes = int(float(str(case['env_limit']))) * 1024 * 1024
+    elif case.get('default_limit'):
+        os.environ.pop(ENV, None)
+        limit_arg = None
+        limit_bytes = 500 * 1024 * 1024
     else:
         os.environ.pop(ENV, None)
         limit_bytes = case['limit_bytes']
@@ -172,7 +177,8 @@ def check_file_case(ctx, case):
     binary = any(b >= 0x80 or b in (10, 13) for b in bytearray(content[:4096]))
     ctx.case(case, near or binary, classes=(
         'cassette:' + case['cassette'], 'kw' if kw else 'positional', 'static' if static else 'instance',
-        'over-limit' if over else 'within-limit', 'env-limit' if case.get('env_limit') is not None else 'explicit-limit',
+        'over-limit' if over else 'within-limit', 'env-limit' if case.get('env_limit') is not None else 'default-limit' if case.get('default_limit') else
+        'explicit-limit', 'size:>1MB' if len(content) > 2 ** 20 else 'size:<=1MB',
         'size:near-limit' if near else 'size:other', 'empty' if not content else 'nonempty'))
 
 
@@ -220,3 +226,11 @@ def run(ctx):
                 for cassette in (['memory'] if ctx.quick else ['memory', 'file', 's3']):
                     case = {'size': size, 'env_limit': env, 'kw': size % 2 == 0, 'static': False, 'cassette': cassette}
                     guarded(ctx, case, lambda c: check_file_case(ctx, c))
+        # files larger than 1 MB that the limit still allows (documented default limit 500 MB, and a 2 / 4 MB env limit)
+        big = [{'size': 2 ** 20 + 1, 'env_limit': 2}, {'size': 3 * 2 ** 20 + 5, 'default_limit': True}]
+        if not ctx.quick:
+            big += [{'size': 2 ** 21 + 7, 'env_limit': 4}, {'size': 2 ** 20 + 2, 'default_limit': True},
+                    {'size': 5 * 2 ** 20 + 1, 'default_limit': True}]
+        for n, b in enumerate(big):
+            case = dict(b, kw=bool(n % 2), static=bool(n % 3 == 0), cassette=['memory', 'file', 's3'][n % 3])
+            guarded(ctx, case, lambda c: check_file_case(ctx, c))
